@@ -117,7 +117,11 @@ def replay_witness(w):
         return {'reproduced': None, 'output': 'timeout'}
     # exit 1 = the driver found / reproduced a violation; exit 101 = the driver itself panicked inside the real code
     # (an uncaught panic of the code under test is a crash on that input)
-    return {'reproduced': p.returncode in (1, 101), 'rc': p.returncode, 'output': (p.stdout + p.stderr)[-200000:], 'cmd': ' '.join(cmd)}
+    # exit 1 = the driver found / reproduced a violation. exit 101 = the driver itself panicked: for in-process drivers that call the
+    # code under test directly an uncaught panic IS a crash of that code on that input; for drivers that talk to a server process or run
+    # an external binary (`panic_is_violation: False`) a panic of the driver (a timeout unwrap, a broken pipe) proves nothing
+    hit = (1, 101) if w.get('panic_is_violation', True) else (1,)
+    return {'reproduced': p.returncode in hit, 'rc': p.returncode, 'output': (p.stdout + p.stderr)[-200000:], 'cmd': ' '.join(cmd)}
 
 
 def run_rustc_traits(eng, prop, tier, seed):
